@@ -114,3 +114,23 @@ Theorem C05_source_tie_globs : forall r n, 0 <= r ->
   is_bufs_of r n = glob_match (GMr.prev_bufs_glob (r + 1)) n /\
   is_idxs_of r n = glob_match (GMr.prev_idxs_glob (r + 1)) n.
 Proof. intros r n H. split; [exact (tie_prev_bufs r n H) | exact (tie_prev_idxs r n H)]. Qed.
+
+(* ---- the run does not fail (Proofs/MrTotal.v) ----
+   all other workflow theorems take the success of the run as a hypothesis; conversely, for every
+   non-empty list of non-empty files of equal-width rows and every option combination whose criterion
+   names are builtin names, the modelled run succeeds.  Each hypothesis that is not a mere proof
+   artefact is shown necessary by a failing instance (MrTotal.Demo: no files, an empty file, an unknown
+   criterion name, bin size 0 with a midsection round). *)
+From BB Require Import Proofs.MrBound Proofs.MrTotal.
+Theorem C05_run_succeeds : forall fexp nf (c : mr_cfg) (files : list (list fpv)),
+  Z.of_nat nf < 2 ^ 52 ->
+  Forall (Forall (fun fp : fpv => List.length fp = nf)) files ->
+  zlen (List.concat files) < 2 ^ 64 ->
+  2 <= m_bf c -> (1 <= m_bin c)%nat ->
+  files <> [] -> Forall (fun f : list fpv => f <> []) files ->
+  m_init_crit c <> NUnknown -> m_mid_crit c <> NUnknown -> m_final_crit c <> Some NUnknown ->
+  exists d, run_multiround fexp c files [] = Some d.
+Proof. exact multiround_succeeds. Qed.
+Example C05_empty_file_fails :
+  run_multiround MrBound.Demo.fid MrBound.Demo.c [[MrTotal.Demo.r0]; []] [] = None.
+Proof. exact MrTotal.Demo.empty_file_fails. Qed.
